@@ -19,6 +19,15 @@ def scenarios():
     S["client-options"] = dict(
         model=scen.wf("m", [scen.step("s1", [scen.irq("a1", outputs={"y": None})]), scen.step("s2", [scen.irq("a2", **{"if": "y > 3"})])], inputs={"y": 0}, outputs={"y": None}),
         inputs={}, declares={"y": "m"}, outputs=["y"], answer={"a1": {"y": "$w", "z": 9, "__p": 1}})
+    # the answered act declares no outputs (every option counts) and is followed by another act in the same step
+    S["client-options-plain-act"] = dict(
+        model=scen.wf("m", [scen.step("s1", [scen.irq("a1"), scen.irq("a2", **{"if": "y > 3"})]), scen.step("s2", [scen.irq("a3", inputs={"q": "{{ y }}"})])],
+                      inputs={"y": 0}, outputs={"y": None}),
+        inputs={}, declares={"y": "m"}, outputs=["y"], answer={"a1": {"y": "$w", "__p": 1}})
+    # the name is declared by the step, the act declares it as output but is not the last act of the step
+    S["client-options-step-scope"] = dict(
+        model=scen.wf("m", [scen.step("s1", [scen.irq("a1", outputs={"t": None}), scen.irq("a2", **{"if": "t > 3"})], inputs={"t": 0}), scen.step("s2", [scen.irq("a3")])], outputs={}),
+        inputs={}, declares={"t": "s1"}, outputs=[], answer={"a1": {"t": "$w", "z": 9}})
     S["interleaved-branches"] = dict(
         model=scen.wf("m", [scen.step("s1", branches=[
             scen.branch("b1", [scen.step("s11", [scen.setv("w1", {"x": "$v1"}), scen.irq("r1", **{"if": "x > 5"})])], **{"if": "true"}),
@@ -96,16 +105,24 @@ class DRun(Run):
             tk = deref_all(task_ref)
             return W.field(W.field(tk, "Task", "node").c[0], "Node", "id")
 
+        # The reference record of writes is taken where a value ENTERS the engine, not where the engine stores it:
+        #   - the parameters a set act is executed with (entry of SetPackage::execute),
+        #   - the arguments of $set(..) as the script engine hands them over,
+        #   - the options of an accepted client action (run()).
+        def val_of(v):
+            return v.f[0].n if (isinstance(v, Enum) and v.d == 2) else W.py(v)
+
         for (k_ty, k_tr, k_m), its in I.p.impls.items():
-            if k_ty == "Task" and k_tr is None and k_m == "update_data":
+            if k_ty == "SetPackage" and k_m == "execute":
                 def pre(I, item, args):
-                    m = deref_all(args[1]).f[0]
+                    m = deref_all(args[0]).f[0].f[0]
+                    task = I.call_raw("scheduler::context::Context::task", [args[1]], None)
                     for k in m.keys():
                         run.seq += 1
-                        v = m.d[k].v
-                        run.writes.append((run.seq, nid_of(args[0]), k, v.f[0].n if (isinstance(v, Enum) and v.d == 2) else W.py(v)))
+                        run.writes.append((run.seq, nid_of(task), k, val_of(m.d[k].v)))
 
                 I.monitors_pre[its[0].name] = pre
+                run.set_monitor = True
         orig_eval = W.js_eval
 
         def js_eval(expr, ty):
@@ -119,7 +136,13 @@ class DRun(Run):
                 v = vars_.f[0].d[k].v
                 snap[k] = v.f[0].n if (isinstance(v, Enum) and v.d == 2) else W.py(v)
             run.reads.append((run.seq, reader, expr, snap))
-            return orig_eval(expr, ty)
+            n0 = len(W.js_sets)
+            try:
+                return orig_eval(expr, ty)
+            finally:
+                for name, v in W.js_sets[n0:]:
+                    run.seq += 1
+                    run.writes.append((run.seq, reader, name, val_of(v)))
 
         W.js_eval = js_eval
         self.install_event_monitor()
@@ -140,7 +163,16 @@ class DRun(Run):
             n += 1
             t = irqs[0]
             opts = instantiate((self.spec.get("answer") or {}).get(t["nid"], {}), self.sym)
-            W.action(self.pid, t["tid"], "Next", opts)
+            kind, node = self.node_attr(t["nid"])
+            declared = set((node.get("outputs") or {}).keys())
+            mark = len(self.writes)
+            for k, v in opts.items():
+                if (not declared or k in declared) and not k.startswith("__"):
+                    self.seq += 1
+                    self.writes.append((self.seq, t["nid"], k, v))
+            r = W.action(self.pid, t["tid"], "Next", opts)
+            if r is None or r.d != 0:
+                del self.writes[mark:]
             W.drain()
         self.res.witnesses += 1
         self.check()
@@ -219,9 +251,13 @@ class DRun(Run):
         for nid, opts in ans.items():
             kind, node = self.node_attr(nid)
             declared = set((node.get("outputs") or {}).keys())
+            def stays_local(k):
+                # an act without declared outputs passes every option on; private keys never leave
+                return k.startswith("__") or (declared and k not in declared)
+
             for t in self.tasks():
                 for k in opts:
-                    if k in declared:
+                    if not stays_local(k):
                         continue
                     if k in (t["data"] or {}) and (t["nid"] != nid or not k.startswith("__")):
                         if t["nid"] == nid and declared:
@@ -231,7 +267,7 @@ class DRun(Run):
             for m in W.messages:
                 for part in ("inputs", "outputs"):
                     for k in opts:
-                        if k not in declared and k in (m.get(part) or {}) and m["nid"] != nid:
+                        if stays_local(k) and k in (m.get(part) or {}) and m["nid"] != nid:
                             self.viol("options:key-in-message:%s" % ("private" if k.startswith("__") else "undeclared"), "option %s of act %s shows in the %s of a message of %s" % (k, nid, part, m["nid"]))
 
     def kind_of_reader(self, reader, expr):
